@@ -81,6 +81,23 @@ type IsLeaf struct{ Msg string }
 func (e *IsLeaf) Error() string       { return e.Msg }
 func (e *IsLeaf) Is(r error) bool     { return r == error(IsSentinel) }
 
+// AsTarget is what AsLeaf's As method can be converted to.
+type AsTarget struct{ From string }
+
+func (e *AsTarget) Error() string { return "as-target from " + e.From }
+
+// AsLeaf: a leaf with its own As method (converts itself to *AsTarget).
+type AsLeaf struct{ Msg string }
+
+func (e *AsLeaf) Error() string { return e.Msg }
+func (e *AsLeaf) As(target interface{}) bool {
+	if t, ok := target.(**AsTarget); ok {
+		*t = &AsTarget{From: e.Msg}
+		return true
+	}
+	return false
+}
+
 // LOW is sometimes a leaf and sometimes a wrapper.
 type LOW struct {
 	Msg string
